@@ -396,13 +396,14 @@ Definition start_command (s : sys) (sel : list cand) : sys :=
 Inductive op :=
 | OEnv (e : env)
 | ODisrupt (m : method) (cs : list cand) (ch : choice)
+           (vok : bool)                                  (* choice: validateCommand's re-simulation agrees *)
            (between : list env) (cur1 : list cand)       (* 15 s later: first validateCandidates *)
            (between2 : list env) (cur2 : list cand)      (* consolidation re-validates once more *)
 | OComplete (ids : list Z) (ok : bool)     (* Queue.Reconcile finishes a command *)
 | ORestart.                                (* process restart: queue and marks are lost *)
 
 (* the final selection of one disrupt call and the state in which it was (last) validated *)
-Definition disrupt_sel (s : sys) (m : method) (cs : list cand) (ch : choice)
+Definition disrupt_sel (s : sys) (m : method) (cs : list cand) (ch : choice) (vok : bool)
            (between : list env) (cur1 : list cand) (between2 : list env) (cur2 : list cand)
   : list cand * sys :=
   if negb (cands_ok s cs) then ([], s) else
@@ -418,6 +419,7 @@ Definition disrupt_sel (s : sys) (m : method) (cs : list cand) (ch : choice)
       match validate s1 m prop cur1 with
       | [] => ([], s1)
       | v1 =>
+          if negb vok then ([], s1) else     (* validateCommand: scheduling simulation changed *)
           let s2 := env_steps s1 between2 in
           if negb (cands_ok s2 cur2) then ([], s2) else (validate s2 m v1 cur2, s2)
       end
@@ -426,8 +428,8 @@ Definition disrupt_sel (s : sys) (m : method) (cs : list cand) (ch : choice)
 Definition step (s : sys) (o : op) : sys :=
   match o with
   | OEnv e => env_step s e
-  | ODisrupt m cs ch b1 c1 b2 c2 =>
-      let '(sel, s') := disrupt_sel s m cs ch b1 c1 b2 c2 in start_command s' sel
+  | ODisrupt m cs ch vok b1 c1 b2 c2 =>
+      let '(sel, s') := disrupt_sel s m cs ch vok b1 c1 b2 c2 in start_command s' sel
   | OComplete ids ok =>
       let q := filter (fun i => negb (existsb (Z.eqb i) ids)) (s_queue s) in
       if ok then
@@ -486,6 +488,6 @@ Arguments env_step {sid} _ _.
 Arguments env_steps {sid} _ _.
 Arguments start_command {sid} _ _.
 Arguments OEnv {sid} _.
-Arguments ODisrupt {sid} _ _ _ _ _ _ _.
+Arguments ODisrupt {sid} _ _ _ _ _ _ _ _.
 Arguments OComplete {sid} _ _.
 Arguments ORestart {sid}.
